@@ -19,7 +19,7 @@ from oracles import container
 
 ID = "C20"
 LEVEL = "fault_enumeration"
-RUN_TIMEOUT_S = 300
+RUN_TIMEOUT_S = 75
 RULE = (
     "each evaluation is one fault applied to one stored corpus image or one save: (a) a truncation length / byte flip / "
     "torn or zero-filled image / garbage image opened through TTFont (stream and path, lazy modes) with every table then "
@@ -429,10 +429,12 @@ def _exec_payload_one(ctx, h, scratch):
             f = TTFont(io.BytesIO(img), lazy=h["lazy"])
             f[tag]
         undecodable = False
-    except RunTimeout:
-        # damaged counts can make a decoder loop for minutes: slow, but decodable as far as this clause goes
-        probes["b.decode_exceeds_6s"] = 1
-        events.append([h["font"], tag, h["fault"], "slow"])
+    except (RunTimeout, MemoryError) as e:
+        # damaged counts can make a decoder loop for minutes or build gigabytes: which of the harness' two
+        # resource limits ends it depends on the state of the process, so both are one outcome in the event
+        # log (digests stay a function of the run), and the run is inconclusive as far as this clause goes
+        probes["b.decode_exceeds_6s" if isinstance(e, RunTimeout) else "b.decode_hits_memory_limit"] = 1
+        events.append([h["font"], tag, h["fault"], "resource-limit"])
         return res
     except Exception as e:
         undecodable = type(e).__name__
@@ -449,6 +451,12 @@ def _exec_payload_one(ctx, h, scratch):
     try:
         f[tag]
         got = f.getTableData(tag)
+    except MemoryError:
+        # the harness' own address-space limit hit while the decoder was building something huge from a
+        # damaged count: inconclusive, not the library's verdict (without the limit it would go on allocating)
+        probes["b.memory_limit_in_decode"] = 1
+        events.append([h["font"], tag, h["fault"], "resource-limit"])
+        return res
     except Exception as e:
         res["violation"] = {"class": "undecodable-not-kept-raw:%s" % tag.strip(), "detail": "with ignoreDecompileErrors=True, access/getTableData of damaged %r in %s raised %s: %s" % (tag, h["font"], type(e).__name__, str(e)[:100]), "sig": {"tag": tag, "clause": "b1", "exc": type(e).__name__}}
         _match_known(h, res)
